@@ -534,9 +534,12 @@ def rule_definition_purge(run):
         return f"wrong: {src(e)[:70]} not recognised"
     d = domain(loop.iter)
     run.ob(d in ("cache", "new"), "ConvertPythonInstance.__exit__", file=pa.rel, line=loop.lineno, detail="purge-domain", expected="every current cache entry (or cache - snapshot) is examined", found=d)
+    from .c07 import guards as _guards
+    g = _guards(ex.node, dels[0], pa.parents)
+    allowed = [f"if definition_id not in {snap}", "if not inspect.iscoroutine(captured)"]
+    extra = [str(x) for x in g if not any(x == a for a in allowed)]
+    run.ob(not extra, "ConvertPythonInstance.__exit__", file=pa.rel, line=dels[0].lineno, detail="purge-exemptions", expected="only coroutine objects (kept alive on purpose) are exempt from the purge", found=str(extra) if extra else "ok")
     if d == "cache":
-        from .c07 import guards as _guards
-        g = _guards(ex.node, dels[0], pa.parents)
         ok = any(x == f"if definition_id not in {snap}" for x in g)
         run.ob(ok, "ConvertPythonInstance.__exit__", file=pa.rel, line=dels[0].lineno, detail="purge-selects-new", expected=f"entries not in {snap} are deleted", found=str([str(x) for x in g]))
     run.end()
@@ -547,7 +550,12 @@ def rule_snapshot(run):
     snapshot.run_rule(run, "F-SNAPSHOT")
 
 
-RULES = [rule_pairing, rule_kinds, rule_entityinfo, rule_return_stack, rule_order, rule_dynamic_ports, rule_definition_purge, rule_snapshot]
+def rule_alias(run):
+    from ..rules import snapshot
+    snapshot.run_alias_rule(run, "F-ALIAS")
+
+
+RULES = [rule_pairing, rule_kinds, rule_entityinfo, rule_return_stack, rule_order, rule_dynamic_ports, rule_definition_purge, rule_snapshot, rule_alias]
 
 LEVEL = "other"
 EXPLANATION = (
